@@ -266,6 +266,28 @@ func (c *child) genSysLen(target string, idx int) ([]byte, []string) {
 	return nil, []string{"sys-len-out-of-range"}
 }
 
+// regressionInputs are fixed witnesses of repaired defects; they run in every tier.
+func (c *child) regressionInputs() (targets []string, inputs [][]byte, notes []string) {
+	// codec.GetRawProtoField: declared length >= 2^63 in the block bytes of a certificate (repaired in canopy f14e602)
+	for _, l := range []uint64{1<<64 - 1, 1 << 63, 1<<63 - 1} {
+		blk := protowire.AppendVarint(protowire.AppendTag(nil, 1, protowire.BytesType), l)
+		qc := protowire.AppendBytes(protowire.AppendTag(nil, 1, protowire.BytesType), nil)           // header: {}
+		qc = protowire.AppendBytes(protowire.AppendTag(qc, 3, protowire.BytesType), make([]byte, 32)) // results_hash
+		qc = protowire.AppendBytes(protowire.AppendTag(qc, 4, protowire.BytesType), blk)              // block
+		qc = protowire.AppendBytes(protowire.AppendTag(qc, 5, protowire.BytesType), make([]byte, 32)) // block_hash
+		bm := protowire.AppendBytes(protowire.AppendTag(nil, 4, protowire.BytesType), qc)             // BlockMessage.BlockAndCertificate
+		targets, inputs, notes = append(targets, "BlockMessage"), append(inputs, bm), append(notes, fmt.Sprintf("raw-field-length-%d-in-certificate-block", l))
+		targets, inputs, notes = append(targets, "QuorumCertificate"), append(inputs, qc), append(notes, fmt.Sprintf("raw-field-length-%d-in-certificate-block", l))
+		m := &bft.Message{Header: &lib.View{NetworkId: envNetworkID, ChainId: envChainID, Height: 1, RootHeight: 1, Phase: lib.Phase_PROPOSE},
+			Qc: &lib.QuorumCertificate{Header: &lib.View{}, ResultsHash: make([]byte, 32), BlockHash: make([]byte, 32), Block: blk}}
+		if err := m.Sign(c.e.keys[0]); err != nil {
+			panic(err)
+		}
+		targets, inputs, notes = append(targets, "signed-msg"), append(inputs, mb(m)), append(notes, fmt.Sprintf("raw-field-length-%d-in-proposal", l))
+	}
+	return
+}
+
 // genInput produces the hostile input for (target, rng).
 func (c *child) genInput(rng *rand.Rand, name string) ([]byte, []string) {
 	switch name {
@@ -732,6 +754,8 @@ func childMain(t *testing.T) {
 			c.counts["sys_len_space_"+t] = int64(total)
 		}
 	}
+	rTargets, rInputs, rNotes := c.regressionInputs()
+	plan = append(plan, planEntry{"regress", len(rInputs)})
 	for _, pe := range plan {
 		for i := shard; i < pe.n; i += nShards {
 			name := fmt.Sprintf("dec/%s/%d", pe.target, i)
@@ -748,7 +772,9 @@ func childMain(t *testing.T) {
 			var data []byte
 			var ops []string
 			execTarget := pe.target
-			if strings.HasPrefix(pe.target, "sys-len:") {
+			if pe.target == "regress" {
+				execTarget, data, ops = rTargets[i], rInputs[i], []string{"regression:" + rNotes[i]}
+			} else if strings.HasPrefix(pe.target, "sys-len:") {
 				execTarget = pe.target[len("sys-len:"):]
 				total := c.sysLenTotal(execTarget)
 				// a fixed stride spreads the tier's sample over seeds, fields and variants (the thorough tier takes all)
@@ -1029,7 +1055,7 @@ func decodeChildren(run *core.Run) {
 			defer wg.Done()
 			resume := ""
 			for attempt := 0; attempt < 200; attempt++ {
-				res := spawnChild(dir, "decode", s, nShards, resume, 30)
+				res := spawnChild(dir, "decode", s, nShards, resume, envInt("C19_HANG_SEC", 30))
 				absorb(run, res)
 				if res.done {
 					return
@@ -1039,10 +1065,10 @@ func decodeChildren(run *core.Run) {
 					var hr childRec
 					_ = json.Unmarshal(hb, &hr)
 					// confirm alone, with a much longer limit, before calling it a hang
-					one := spawnSingle(dir, s+1000*(attempt+1), hr.Case, 180)
+					one := spawnSingle(dir, s+1000*(attempt+1), hr.Case, envInt("C19_HANG_CONFIRM_SEC", 180))
 					absorb(run, one)
 					if !one.done {
-						viol(run, "decoder-hang type="+targetOfCase(hr.Case), "^"+regexp.QuoteMeta(hr.Case)+"$", map[string]any{"input_hex": input, "note": "no return within 30 s in the shard and within 180 s alone"})
+						viol(run, "decoder-hang type="+targetOfCase(hr.Case), "^"+regexp.QuoteMeta(hr.Case)+"$", map[string]any{"input_hex": input, "note": fmt.Sprintf("no return within %d s in the shard and within %d s alone", envInt("C19_HANG_SEC", 30), envInt("C19_HANG_CONFIRM_SEC", 180))})
 					} else {
 						run.Inconclusive("watchdog fired for %s but the input returned when run alone", hr.Case)
 					}
@@ -1137,6 +1163,13 @@ func recoveredKind(log string) string {
 		rest = rest[i:]
 	}
 	return strings.TrimPrefix(msg, "panic recovered, err: ") + " @ " + topCanopyFrame(strings.Join(strings.Split(rest, "\n")[1:], "\n"))
+}
+
+func envInt(name string, def int) int {
+	if v, err := strconv.Atoi(os.Getenv(name)); err == nil && v > 0 {
+		return v
+	}
+	return def
 }
 
 func tail(s string, n int) string {
